@@ -24,7 +24,8 @@ DEFAULT_EXTERN = [r'nondet_\w+', r'verif_\w+', r'__CPROVER_\w+', r'malloc|free|c
 class Unit:
     """One harness translation unit, lowered once; several entries (obligations) may share it."""
     def __init__(self, name, src, entries, defines=None, aliases=None, stubs=None, noinline=None, extra_roots=None,
-                 throw_ok=False, clang_flags=None, object_bits=None, allow_extern=None, lemmas=None):
+                 throw_ok=False, clang_flags=None, object_bits=None, allow_extern=None, lemmas=None, discover=None):
+        self.discover = dict(discover or {})   # {MACRO: regex with one group over the IR text}: symbol names of internal functions (lambdas) found in a pre-pass, passed as -DMACRO="name"
         self.name = name; self.src = src; self.entries = list(entries)
         self.defines = dict(defines or {}); self.aliases = dict(aliases or {}); self.stubs = list(stubs or [])
         self.noinline = list(noinline or []); self.extra_roots = list(extra_roots or [])
@@ -43,7 +44,7 @@ class Ob:
         self.functions = functions or []; self.bounds = bounds; self.assumptions = assumptions or []
         self.stubs = stubs or []; self.extra_flags = extra_flags or []; self.unwindset = unwindset
         self.backend = backend; self.site = site or ''; self.no_checks = no_checks
-        self.unwind_fn = unwind_fn or {}    # {regex on function name: bound} -> unwindset for every loop of matching functions
+        self.unwind_fn = unwind_fn or {}    # {regex on function name or on loop id 'function.N': bound} -> unwindset for the matching loops (first match wins)
         self.result = None
 
 def log(msg):
@@ -84,6 +85,18 @@ def lower_unit(u, scratch):
     defs = ['-D%s=%s' % kv if kv[1] is not None else '-D' + kv[0] for kv in u.defines.items()] + ['-DHAS_RT']
     def fail(stage, out):
         u.error = '%s failed for unit %s:\n%s' % (stage, u.name, out[-4000:]); return False
+    # 0. symbol discovery: internal functions of the repository (lambdas) the harness calls through an asm label
+    if u.discover:
+        ph = ['-D%s="verif_undiscovered_%s"' % (m, m) for m in u.discover]
+        rc, out, _, _ = run(['clang++-14', '-std=c++11', '-O0', '-Xclang', '-disable-O0-optnone', '-fno-access-control', '-fno-threadsafe-statics',
+                             '-emit-llvm', '-S', '-w', '-DVERIF_CBMC'] + ph + defs + u.clang_flags + inc_flags() + [src, '-o', 'disc.ll'], cwd=d, timeout=600)
+        if rc != 0: return fail('clang (discovery)', out)
+        with open(os.path.join(d, 'disc.ll')) as f: irtext = f.read()
+        for m, rx in u.discover.items():
+            found = sorted(set(re.findall(rx, irtext)))
+            if len(found) != 1: return fail('symbol discovery', '%s: %d matches for %s' % (m, len(found), rx))
+            defs.append('-D%s="%s"' % (m, found[0]))
+        os.remove(os.path.join(d, 'disc.ll'))
     # 1. IR (plain and UBSan-instrumented flavours; the latter only for native replay)
     force = []
     for f in list(u.aliases.keys()) + u.noinline: force += ['-force-attribute=%s:noinline' % f]
@@ -210,7 +223,7 @@ def cbmc_cmd(u, ob, witness, disabled=()):
         for lid in unit_loops(u):
             fn = lid.rsplit('.', 1)[0]
             for pat, bound in ob.unwind_fn.items():
-                if re.fullmatch(pat, fn): uws.append('%s:%d' % (lid, bound)); break
+                if re.fullmatch(pat, fn) or re.fullmatch(pat, lid): uws.append('%s:%d' % (lid, bound)); break
     if uws: cmd += ['--unwindset', ','.join(uws)]
     if u.throw_ok: cmd += ['-DVERIF_THROW_OK']
     cmd += ['--object-bits', str(u.object_bits or 12)]
@@ -234,12 +247,18 @@ def stats(out):
     t = re.findall(r'Runtime decision procedure: ([\d.]+)s', out)
     return vars_, cls, sum(float(x) for x in t)
 
+def work(out):
+    """Solver-independent size of a query: SSA steps of the unwound program, number of properties (assertions + safety checks) decided."""
+    st = re.findall(r'size of program expression: (\d+) steps', out)
+    pr = re.findall(r'\*\* \d+ of (\d+) failed', out)
+    return (max(int(x) for x in st) if st else 0), (max(int(x) for x in pr) if pr else 0)
+
 def check_ob(ob, seed, known):
     """Runs witness twin, translation validation, the query, and replay.  Fills ob.result."""
     u = ob.unit; t0 = time.time()
     r = {'id': ob.oid, 'entry': ob.entry, 'param': ob.param, 'desc': ob.desc, 'core': ob.core, 'unwind': ob.unwind, 'bounds': ob.bounds,
          'assumptions': ob.assumptions, 'stubs': ob.stubs, 'functions': ob.functions, 'backend': ob.backend or 'kissat(default)',
-         'status': None, 'witness': None, 'tv_vectors': 0, 'solver_s': 0.0, 'wall_s': 0.0, 'vars': 0, 'clauses': 0, 'detail': ''}
+         'status': None, 'witness': None, 'tv_vectors': 0, 'solver_s': 0.0, 'wall_s': 0.0, 'vars': 0, 'clauses': 0, 'steps': 0, 'nprops': 0, 'detail': ''}
     ob.result = r
     if u.error:
         r['status'] = 'error'; r['detail'] = u.error; return r
@@ -275,6 +294,7 @@ def check_ob(ob, seed, known):
         cmd = cbmc_cmd(u, ob, False, disabled)
         rc, out, dt, _ = run(cmd, cwd=u.dir, timeout=ob.timeout, mem_gb=ob.mem_gb)
         r['vars'], r['clauses'], r['solver_s'] = stats(out) if rc != 'timeout' else (0, 0, 0.0)
+        r['steps'], r['nprops'] = work(out) if rc != 'timeout' else (0, 0)
         r['cbmc_s'] = dt
         r['cmd'] = ' '.join(cmd).replace(u.dir, '$UNIT')
         retry = False
@@ -351,7 +371,12 @@ def run_property(pid, units, obs, tier, seed, level_text, trusted_base, extra_as
             log('  [%s] %s %s %.0fs %s' % (pid, o.oid, r['status'], r['wall_s'], (r.get('what') or r.get('detail') or '')[:200].replace('\n', ' | ')))
             return r
         with ThreadPoolExecutor(max_workers=jobs) as ex:
-            list(ex.map(one, obs))
+            # longest first (costs.json: wall seconds of an earlier full run, refreshed by tools/update_costs.py; unknown obligations count as long)
+            try:
+                with open(os.path.join(VERIF, 'vlib', 'costs.json')) as f: costs = json.load(f).get(pid, {})
+            except Exception: costs = {}
+            order = sorted(obs, key=lambda o: -costs.get(o.oid, 10000))
+            list(ex.map(one, order))
         # proved substitutions: dependants are void unless every lemma obligation of their unit is discharged
         for o in obs:
             if os.environ.get('VERIF_NOLEMMA'): break      # development only (partial runs)
@@ -394,8 +419,10 @@ def run_property(pid, units, obs, tier, seed, level_text, trusted_base, extra_as
         ev = {
             'property_id': pid, 'tier': tier, 'seed': seed, 'level': 'model_checking',
             'coverage': {
-                'states': max(1, big['vars'] if big else 1), 'transitions': max(1, big['clauses'] if big else 1),
-                'states_transitions_meaning': 'SAT variables / clauses of the largest query of this run (bounded symbolic model checking has no explicit state count)',
+                'states': max(1, sum(r.get('steps', 0) for r in results)), 'transitions': max(1, sum(r.get('nprops', 0) for r in results)),
+                'states_transitions_meaning': 'states = SSA steps of the unwound programs handed to the solver, summed over the obligations of this run; transitions = properties (harness assertions + '
+                                              'bounds/overflow/shift/unwinding checks) decided by the solver, summed likewise (bounded symbolic model checking has no explicit state count; both numbers are '
+                                              'deterministic for a given tree and independent of the SAT back end)',
                 'traces_validated_against_impl': sum(r['tv_vectors'] for r in results) + sum(1 for r in results if r.get('cex')),
                 'samples': [{'obligation': r['id'], 'status': r['status'], 'witness_input_vector': r['witness'], 'desc': r['desc']} for r in results[:12]],
                 'obligations': n, 'discharged': disc,
